@@ -855,52 +855,6 @@ func c07Gen(tier string, rng *rand.Rand, emit func(interface{})) {
 		}
 		emit(c07Case{Op: 2, N: n, K: k, D: dr, Ys: c07DiscYs(rng, d.CDF, lo, hi)})
 	}
-	// (b') UDist against the exact model of C02: every N1, N2 <= 4 without ties (T nil), with T all ones, and with
-	// random tie vectors (7 per pair; 4*mul more at sizes up to 5 x 5)
-	udistT := func(n int) []int {
-		for {
-			var t []int
-			for left := n; left > 0; {
-				k := 1 + rng.Intn(3)
-				if k > left {
-					k = left
-				}
-				t = append(t, k)
-				left -= k
-			}
-			if len(t) >= 2 {
-				return t
-			}
-		}
-	}
-	emitU := func(n1, n2 int, t []int) {
-		d := stats.UDist{N1: n1, N2: n2, T: append([]int(nil), t...)}
-		if len(t) == 0 {
-			d.T = nil
-		}
-		emit(c07Case{Op: 11, N: n1, K: n2, T: t, Ys: c07UDistYs(rng, d.CDF, n1*n2)})
-	}
-	for n1 := 1; n1 <= 4; n1++ {
-		for n2 := 1; n2 <= 4; n2++ {
-			emitU(n1, n2, nil)
-			ones := make([]int, n1+n2)
-			for i := range ones {
-				ones[i] = 1
-			}
-			emitU(n1, n2, ones)
-			for j := 0; j < 7; j++ {
-				emitU(n1, n2, udistT(n1+n2))
-			}
-		}
-	}
-	for i := 0; i < 4*mul; i++ {
-		n1, n2 := 1+rng.Intn(5), 1+rng.Intn(5)
-		var t []int
-		if rng.Intn(3) != 0 {
-			t = udistT(n1 + n2)
-		}
-		emitU(n1, n2, t)
-	}
 	// (c) dispatch
 	for i := 0; i < 40*mul; i++ {
 		ys := []float64{0, 1, 0.5, 0.025, 0.975, -0.5, 1.5, math.NaN(), math.Ldexp(1, -60), 1 - math.Ldexp(1, -53)}
@@ -1036,6 +990,53 @@ func c07Gen(tier string, rng *rand.Rand, emit func(interface{})) {
 		knots, step := c07GenPW(rng)
 		bl, bh := c07GenBounds(rng, knots, step)
 		emit(c07Case{Op: 8, Knots: knots, Bl: F64(bl), Bh: F64(bh), N: draws8, Seeds: []int64{rng.Int63()}})
+	}
+	// (f) LAST, so that the random stream of every generator above is what it was before this block existed:
+	// UDist against the exact model of C02 (op 11): every N1, N2 <= 4 without ties (T nil), with T all ones, and with
+	// random tie vectors (7 per pair; 4*mul more at sizes up to 5 x 5)
+	udistT := func(n int) []int {
+		for {
+			var t []int
+			for left := n; left > 0; {
+				k := 1 + rng.Intn(3)
+				if k > left {
+					k = left
+				}
+				t = append(t, k)
+				left -= k
+			}
+			if len(t) >= 2 {
+				return t
+			}
+		}
+	}
+	emitU := func(n1, n2 int, t []int) {
+		d := stats.UDist{N1: n1, N2: n2, T: append([]int(nil), t...)}
+		if len(t) == 0 {
+			d.T = nil
+		}
+		emit(c07Case{Op: 11, N: n1, K: n2, T: t, Ys: c07UDistYs(rng, d.CDF, n1*n2)})
+	}
+	for n1 := 1; n1 <= 4; n1++ {
+		for n2 := 1; n2 <= 4; n2++ {
+			emitU(n1, n2, nil)
+			ones := make([]int, n1+n2)
+			for i := range ones {
+				ones[i] = 1
+			}
+			emitU(n1, n2, ones)
+			for j := 0; j < 7; j++ {
+				emitU(n1, n2, udistT(n1+n2))
+			}
+		}
+	}
+	for i := 0; i < 4*mul; i++ {
+		n1, n2 := 1+rng.Intn(5), 1+rng.Intn(5)
+		var t []int
+		if rng.Intn(3) != 0 {
+			t = udistT(n1 + n2)
+		}
+		emitU(n1, n2, t)
 	}
 }
 
